@@ -324,6 +324,8 @@ class Interp:
         txt = txt.strip()
         m = re.match(r"^(-?\d+)_(\w+)$", txt)
         if m and m.group(2) in INT_TY:
+            if self.int_mode and m.group(2) in self.int_types:
+                return z3.IntVal(int(m.group(1)))
             return z3.BitVecVal(int(m.group(1)), INT_TY[m.group(2)])
         if txt == "true":
             return z3.BoolVal(True)
@@ -387,6 +389,20 @@ class Interp:
             g = fr.get("__gconsts__")
             if g and s[6:].strip() in g:
                 return g[s[6:].strip()]
+            mp = re.search(r"::(promoted\[\d+\])$", s)
+            if mp and fr.get("__fn__"):
+                # a promoted constant belongs to the function being executed: `const <fn name>::promoted[i]`
+                f = self.fns.get("const %s::%s" % (fr["__fn__"], mp.group(1)))
+                if f is not None:
+                    key = f.name
+                    if key not in self.const_cache:
+                        try:
+                            self.const_cache[key] = self.run_to_end(self.call_fn(f, [], path))
+                        except (Infeasible, MirPanic):
+                            raise
+                        except Exception:
+                            self.const_cache[key] = ("opaque", s[6:])
+                    return self.const_cache[key]
             return self.const(s[6:], path)
         if "::" in s and not s.startswith(("_", "(")) and re.fullmatch(r"[\w<>:, &\[\]()'*+{}@./#-]+", s):
             return ("opaque", s)          # a function item passed as a value (e.g. `Option::<T>::take` to filter_map)
@@ -397,6 +413,10 @@ class Interp:
         w = INT_TY[ty]
         if isinstance(v, tuple):
             return v        # opaque constant (e.g. libc::POLLIN): stays opaque
+        if z3.is_int(v):
+            if ty in ("usize", "u64"):
+                return v
+            raise Unsupported("cast of an Int-mode usize to " + ty)
         if z3.is_bool(v):
             v = z3.If(v, z3.BitVecVal(1, w), z3.BitVecVal(0, w))
             return v
@@ -413,6 +433,8 @@ class Interp:
             if op in table:
                 return table[op](a, b)
             raise Unsupported("bool binop " + op)
+        if z3.is_int(a) or z3.is_int(b):
+            return self.binop_int(op, a, b)
         signed = lhs_ty in SIGNED
         if op == "Rem" and not signed and self.rem_hook is not None:
             r = self.rem_hook(a, b)
@@ -436,6 +458,35 @@ class Interp:
         if op in table:
             return table[op](a, b)
         raise Unsupported("binop " + op)
+
+    # usize as mathematical integers that keep the mod-2^64 semantics (int_mode): additions / subtractions wrap through an
+    # explicit If, so the encoding is exact for values in [0, 2^64) while the solver reasons in linear arithmetic
+    int_mode = False
+    int_types = ("usize",)       # integer types represented as mathematical integers in int_mode (all 64-bit unsigned)
+    WORD = 1 << 64
+
+    @classmethod
+    def wrap_int(cls, x):
+        return z3.If(x >= cls.WORD, x - cls.WORD, z3.If(x < 0, x + cls.WORD, x))
+
+    def binop_int(self, op, a, b):
+        if not (z3.is_int(a) and z3.is_int(b)):
+            raise Unsupported("mixed Int/BitVec operands of %s" % op)
+        if op in ("Add", "AddUnchecked"):
+            return self.wrap_int(a + b)
+        if op in ("Sub", "SubUnchecked"):
+            return self.wrap_int(a - b)
+        if op == "Mul":
+            return (a * b) % self.WORD
+        if op == "Div":
+            return a / b
+        if op == "Rem":
+            return a % b
+        table = {"Eq": lambda x, y: x == y, "Ne": lambda x, y: x != y, "Lt": lambda x, y: x < y, "Le": lambda x, y: x <= y,
+                 "Gt": lambda x, y: x > y, "Ge": lambda x, y: x >= y}
+        if op in table:
+            return table[op](a, b)
+        raise Unsupported("Int binop " + op)
 
     def enum_variant(self, path_txt):
         """`Option::<T>::Some` / `std::task::Poll::<()>::Pending` -> (enum name, variant index)."""
@@ -462,6 +513,12 @@ class Interp:
             a = self.operand(fr, parts[0], path)
             b = self.operand(fr, parts[1], path)
             op = m.group(1)
+            if z3.is_int(a) or z3.is_int(b):
+                if not (z3.is_int(a) and z3.is_int(b)):
+                    raise Unsupported("mixed Int/BitVec operands of %sWithOverflow" % op)
+                exact = a + b if op == "Add" else (a - b if op == "Sub" else a * b)
+                r = self.wrap_int(exact) if op != "Mul" else exact % self.WORD
+                return Struct({0: Cell(r), 1: Cell(z3.Or(exact >= self.WORD, exact < 0))})
             w = a.size()
             signed = self.operand_type(fr, parts[0]) in SIGNED
             if op == "Add":
@@ -476,6 +533,14 @@ class Interp:
                 r = a * b
                 ovf = z3.Not(z3.BVMulNoOverflow(a, b, signed))
             return Struct({0: Cell(r), 1: Cell(ovf)})
+        m = re.match(r"^PtrMetadata\((.+)\)$", rhs)
+        if m:
+            v = self.operand(fr, m.group(1), path)
+            while isinstance(v, Ref) and not hasattr(v, "ptr_metadata"):
+                v = v.cell.v
+            if hasattr(v, "ptr_metadata"):
+                return v.ptr_metadata()
+            raise Unsupported("PtrMetadata of %r" % (v,))
         m = re.match(r"^(Not|Neg)\((.+)\)$", rhs)
         if m:
             a = self.operand(fr, m.group(2), path)
@@ -564,7 +629,7 @@ class Interp:
             return Struct(fields)
         # tuple struct ctor: Snapshot(move _4)
         m = re.match(r"^([\w:<>]+)\((.*)\)$", rhs)
-        if m:
+        if m and self.balanced(m.group(2)):
             parts = self.split_top(m.group(2)) if m.group(2).strip() else []
             return Struct({i: Cell(self.operand(fr, p, path)) for i, p in enumerate(parts)})
         if re.match(r"^[A-Z]\w*$", rhs) or re.match(r"^[\w:]+::[A-Z]\w*$", rhs):
@@ -572,7 +637,8 @@ class Interp:
         # tuple-struct / tuple-variant constructor as an aggregate: Name::<T, U>(op, op)   (calls are terminators, not rvalues)
         m = re.match(r"^([A-Za-z_][\w:]*)(?:::<.*>)?\((.*)\)$", rhs)
         if m and not rhs.startswith(("copy ", "move ", "const ")):
-            parts = self.split_top(m.group(2)) if m.group(2).strip() else []
+            argtxt = self.split_call(rhs)[1]          # the last balanced (...) group: generic arguments may contain `()`
+            parts = self.split_top(argtxt) if argtxt.strip() else []
             return Struct({i: Cell(self.operand(fr, part, path)) for i, part in enumerate(parts)})
         raise Unsupported("rvalue? " + rhs)
 
@@ -621,7 +687,7 @@ class Interp:
 
     def call_fn(self, fn, args, path, depth=0, gconsts=None):
         self.called.add(fn.name)
-        fr = {"__types__": fn.locals}
+        fr = {"__types__": fn.locals, "__fn__": fn.name}
         if gconsts:
             fr["__gconsts__"] = gconsts
         for a, v in zip(fn.args, args):
@@ -714,6 +780,8 @@ class Interp:
                 kv = int(k)
                 if z3.is_bool(v):
                     cond = v if kv != 0 else z3.Not(v)
+                elif z3.is_int(v):
+                    cond = v == z3.IntVal(kv)
                 else:
                     cond = v == z3.BitVecVal(kv, v.size())
                 if path.decide(cond):
